@@ -340,11 +340,12 @@ def shard_valid(rec, width, part, parts, max_keys, full_limit=7):
             case_prune(rec, width, keys, aug, -1, _all=True)
             # value functions that are not injective (equal sub-tries = one shared cell): canonical labels + every single
             # non-canonical edge, all prunings; for few keys EVERY assignment of two values to the keys
-            vfs = ['const', 'low1'] + ([f'two:{sum(1 << k for j, k in enumerate(keys) if vm >> j & 1)}' for vm in range(1, (1 << len(keys)) - 1)] if len(keys) <= 4 else [])
+            vfs = ['const', 'low1'] + ([f'two:{sum(1 << k for j, k in enumerate(keys) if vm >> j & 1)}' for vm in range(1, (1 << len(keys)) - 1)]
+                                       if len(keys) <= (4 if width <= 3 else 3) else [])
             for valfn in vfs:
                 for assign in assignments(edges, full_limit=0, k=1):
                     case_assign(rec, width, keys, aug, assign, valfn)
-                if not valfn.startswith('two:'):
+                if not valfn.startswith('two:') and (width <= 3 or len(keys) <= 3):
                     case_prune(rec, width, keys, aug, -1, _all=True, valfn=valfn)
         n += 1
     rec.sample({'width': width, 'keys': [0, 1, 6], 'edge_kinds': ['same', '', 'long'], 'aug': True})
